@@ -129,6 +129,10 @@ def entries():
     add = lambda *a, **k: E.append(Entry(*a, **k))
     # constructors -------------------------------------------------------------------------
     add("polynomial(poly)", lambda r: [P(r)], lambda a: numpoly.polynomial(a), "construct")
+    add("polynomial_from_roots", lambda r: [[int(x) for x in r.integers(-3, 4, size=int(r.integers(1, 5)))]],
+        lambda roots: numpoly.polynomial_from_roots(roots), "construct")
+    add("polynomial_from_roots(float)", lambda r: [[float(x) / 2 for x in r.integers(-4, 5, size=int(r.integers(1, 4)))]],
+        lambda roots: numpoly.polynomial_from_roots(roots), "construct")
     add("polynomial(list of polys)", lambda r: [P(r, shape=gen.choice(r, [(2,), (3,), (2, 2)]))],
         lambda a: numpoly.polynomial(list(a)), "construct")
     add("polynomial(array)", lambda r: [dict(gen.gen_const_struct(r), **{"as": "ndarray"})], lambda a: numpoly.polynomial(a), "construct")
